@@ -561,6 +561,8 @@ pub fn gen_wild_argv(u: &mut Un, level: &Level) -> Vec<Vec<u8>> {
         b"--", b"-", b"", b"-h", b"--help", b"-V", b"--version", b"word", b"1001", b"-5", b"-=",
         b"--=", b"--=x", b"-x=", b"=", b"a=b", b"\xff", b"-\xff", b"--\xff=1", b"-a\xff", b"--x\xffy",
         b"bad", b"x1", b" ", b"-hh", b"-hV",
+        // a single dash, the beginning of a multi-byte character cut short, `=`
+        b"-\xc3=x", b"-\xe2\x82=1", b"-\xe9=x", b"-\xff=", b"-\xf0\x9f=1", b"-\xc3", b"-\xe2\x82",
     ];
     let n = u.below(9);
     let mut out = Vec::new();
